@@ -84,7 +84,7 @@ impl Prop for C19 {
         ctx.tier.pick(4000, 30_000)
     }
     fn rule(&self) -> &'static str {
-        "real binary run from nested working directories: depth 0-6 between the working directory and the directory holding pasfmt.toml, several pasfmt.toml on the path (nearest must win), --config-file (existing, missing, a directory), random subsets of the 7 options split between file and -C, repeated -C for one key, documented values plus invalid ones (unknown key in file or -C, ill-typed values in file or -C, out-of-range tab_width, bad enum, nested table, TOML syntax error, a discovered or explicitly named file that is not UTF-8); a 20-line reference resolver (defaults, then nearest file or --config-file, then -C in order) predicts the effective configuration; oracle: output equals the output of the same binary given the predicted configuration entirely through -C from an empty directory; rejections: non-zero exit, no file modified. Non-trivial: >= 2 layers set the same key to different values; distinct by layer contents."
+        "real binary run from nested working directories: depth 0-6 (one case in eight: 10-48, files only near the top) between the working directory and the directory holding pasfmt.toml, several pasfmt.toml on the path (nearest must win), --config-file (existing, missing, a directory), random subsets of the 7 options split between file and -C, repeated -C for one key, documented values plus invalid ones (unknown key in file or -C, ill-typed values in file or -C, out-of-range tab_width, bad enum, nested table, TOML syntax error, a discovered or explicitly named file that is not UTF-8); a 20-line reference resolver (defaults, then nearest file or --config-file, then -C in order) predicts the effective configuration; oracle: output equals the output of the same binary given the predicted configuration entirely through -C from an empty directory; rejections: non-zero exit, no file modified. Non-trivial: >= 2 layers set the same key to different values; distinct by layer contents."
     }
     fn floor(&self, tier: Tier) -> u64 {
         tier.pick(100, 2_000)
@@ -95,7 +95,12 @@ impl Prop for C19 {
         let scratch = Scratch::new(&ctx.work_dir, "c19");
         let root = scratch.path.as_path();
         // directory chain root/d1/d2/.../dn ; cwd = deepest
-        let depth = rng.range(0, 6);
+        // one case in eight walks a long way up: the only files are near the top of a 10-48 level chain
+        let deep = rng.chance(1, 8);
+        let depth = if deep { rng.range(10, 48) } else { rng.range(0, 6) };
+        if deep {
+            out.count("deep_chain");
+        }
         let mut dirs = vec![root.to_path_buf()];
         for i in 0..depth {
             let d = dirs.last().unwrap().join(format!("d{i}"));
@@ -106,7 +111,7 @@ impl Prop for C19 {
         // config files at random levels
         let mut file_layers: Vec<(usize, Opts)> = vec![];
         for (lvl, d) in dirs.iter().enumerate() {
-            if rng.chance(2, 5) {
+            if (deep && lvl > 3 && rng.chance(1, 60)) || (!(deep && lvl > 3) && rng.chance(2, 5)) {
                 let mut o = Opts::new();
                 for k in KEYS {
                     if rng.chance(2, 5) {
@@ -274,7 +279,7 @@ impl Prop for C19 {
             out.count("reference_run_failed");
             return out;
         }
-        out.count(&format!("depth.{depth}"));
+        out.count(&format!("depth.{}", if depth >= 10 { "10+".to_string() } else { depth.to_string() }));
         out.count(&format!("config_files_on_path.{}", file_layers.len().min(3)));
         if explicit.is_some() {
             out.count("with_config_file_option");
